@@ -224,6 +224,10 @@ parser! {
         pub rule code_part() -> Vec<&'input str>
             = p:(string() { "" } / ch() { "" } / c_block() { "" } / c:$(open_block()) { c } / c:$(!(";" / "//") [_]) { c })* [_]* { p }
 
+        // a line without its trailing `;` or `//` comment; quoted texts and block comments stay in it
+        pub rule code_text() -> &'input str
+            = t:$((string() {} / ch() {} / c_block() / open_block() / (!(";" / "//") [_]) {})*) [_]* { t }
+
         // instruction line
         pub rule instruction_line() -> Document
             = space() l:label()? space() o:operation() space() ol:op_list() space() comment()? {Document::CodeLine(Box::new(l), o, ol)}
